@@ -38,6 +38,10 @@ PROP_MODULES = {
 # --------------------------------------------------------------------------
 # plain data helpers
 # --------------------------------------------------------------------------
+TAGS = ("__frac__", "__dt__", "__td_us__", "__bytes__", "__complex__",
+        "__esc__")
+
+
 def to_plain(obj):
     """Turn a generated case into JSON-serialisable plain data."""
     import datetime as _dt
@@ -51,6 +55,10 @@ def to_plain(obj):
     if isinstance(obj, float):
         return obj
     if isinstance(obj, dict):
+        if len(obj) == 1 and str(next(iter(obj))) in TAGS:
+            # a generated dict that looks like one of the tags below
+            (k, v), = obj.items()
+            return {"__esc__": [str(k), to_plain(v)]}
         return {str(k): to_plain(v) for k, v in obj.items()}
     if isinstance(obj, (list, tuple)):
         return [to_plain(v) for v in obj]
@@ -84,6 +92,8 @@ def from_plain(obj):
     if isinstance(obj, dict):
         if len(obj) == 1:
             (k, v), = obj.items()
+            if k == "__esc__":
+                return {v[0]: from_plain(v[1])}
             if k == "__frac__":
                 return fractions.Fraction(v[0], v[1])
             if k == "__dt__":
